@@ -437,6 +437,18 @@ def conventional(rng, name, feat=None):
         if rng.random() < 0.5:
             s.rpc("WatchSlots", P + ".Slot", P + ".Slot.Empty", ss=True)
         tags.add("local-wellknown-names")
+    if len(svcs) > 1 and rng.random() < 0.6:
+        # the same RPC name in two services, with different request messages
+        qa = f.message("ProbeRequest")
+        qa.field("name", "string", required=True)
+        qa.field("depth", "int32")
+        qb = f.message("AdminProbeRequest")
+        qb.field("reason", "string")
+        qb.field("name", "string", required=True)
+        qb.field("force", "bool", required=True)
+        svcs[0].rpc("Probe", P + ".ProbeRequest", P + ".Aux", http={"get": f"/{uver}/{{name=probes/*}}"}, sigs=["name"])
+        svcs[1].rpc("Probe", P + ".AdminProbeRequest", P + ".Aux", http={"get": f"/{uver}/{{name=adminProbes/*}}"}, sigs=["name"])
+        tags.add("same-rpc-name-two-services")
     if feat.get("odd_rpcs"):
         # RPC names that collide with Python keywords or with attributes of the transport classes
         q = f.message("OddRequest")
